@@ -90,6 +90,12 @@ def run(ctx):
     out = judge(ctx, dsc, A.run_driver(ctx, [dsc], jobs=1)[0], "deviation schedule")
     ctx.count("deviation/decoder_per_loop")
     ctx.sample(dict(kind="deviation counterexample replayed", schedule=[(a["a"], a.get("r", ""), a.get("n", 0)) for a in acts][-16:]))
+    # ... and "loop exit in a separate critical section" (a result that has been delivered to nobody is a lost result)
+    dv2 = A.deviation_cex(ctx, "ATPMC", "separate_loop_exit", dict(Runs="R2", Serial="TRUE", StepBeh="BehOk", MergedExit="FALSE"), ["NoStuck"])
+    acts2 = A.parse_cex(dv2.out)
+    dsc2 = dict(id="deviation/separate_loop_exit", mode="replay", cap=0, schedule=acts2, runs=[dict(id="r1", beh="ok"), dict(id="r2", beh="ok")])
+    judge(ctx, dsc2, A.run_driver(ctx, [dsc2], jobs=1)[0], "deviation schedule")
+    ctx.count("deviation/separate_loop_exit")
     if cex:
         res = A.run_driver(ctx, [s for _, _, s in cex], jobs=2)
         before = len(ctx.violations) + len(ctx.known_hits)
